@@ -1,2 +1,65 @@
--- stub: replaced by the C19 driver
-def main : IO Unit := pure ()
+/-
+  Driver.C19 — runs the C19 CodeModel (Golib.Cal.*) and Spec (Golib.Cal.Civil) on request lines.
+
+    C <z>                 →  y m d wd            Spec: civil date and weekday index (0 = Mon) of day z since 1970-01-01
+    H <t>                 →  yyyymmdd|datetime|timestamp|ymdhms|hhmmss|hhmm|wdIdx|wdLabel|dateUnit|minUnit|fiveMinUnit|logtime
+                             (a helper that would panic answers `panic` in its slot)
+    Y <cps>               →  getYmdTime of the string            | panic
+    F <cps pat> <t>       →  code points of format(pat, t)
+    P <cps pat> <now> <cps input> → parsed millisecond instant   | err | range (year outside 1970..2200: not modelled)
+    T <cps pat> <t>       →  Spec: t truncated to the fields of pat
+
+  strings travel as comma separated code points, the empty string as `-`.
+-/
+import Golib.Cal.Helper
+import Golib.Cal.DateFormat
+import Driver.Common
+
+open Cal Drv
+
+def cpsOf (cs : List Char) : String := listOf (fun c => toString c.toNat) cs
+def parseCps (s : String) : Option (List Char) := (parseList parseNat s).map (·.map Char.ofNat)
+
+def optS (o : Option (List Char)) : String :=
+  match o with
+  | some cs => String.ofList cs
+  | none => "panic"
+
+def answer (line : String) : String :=
+  match line.splitOn " " with
+  | ["C", z] =>
+    match parseNat z with
+    | some z => let c := civil z; s!"{c.y} {c.m} {c.d} {weekdayMon z}"
+    | none => "bad-op"
+  | ["H", t] =>
+    match parseInt t with
+    | some t =>
+      let wi := match weekdayIdx t with | some i => toString i | none => "panic"
+      let wl := match weekday t with | some l => l | none => "panic"
+      "|".intercalate [optS (yyyymmdd t), optS (datetime t), optS (timestamp t), optS (ymdhms t),
+        String.ofList (hhmmss t), String.ofList (hhmm t), wi, wl,
+        toString (getDateUnit t), toString (getMinUnit t), toString (getFiveMinUnit t),
+        String.ofList (logtime t)]
+    | none => "bad-op"
+  | ["Y", s] =>
+    match parseCps s with
+    | some cs => match getYmdTime cs with | some v => toString v | none => "panic"
+    | none => "bad-op"
+  | ["F", pat, t] =>
+    match parseCps pat, parseNat t with
+    | some pat, some t => cpsOf (format pat (fieldsOf t))
+    | _, _ => "bad-op"
+  | ["P", pat, now, inp] =>
+    match parseCps pat, parseNat now, parseCps inp with
+    | some pat, some now, some inp =>
+      match parseFields pat (fieldsOf now) inp with
+      | some f => if f.y < 1970 ∨ f.y > 2200 then "range" else toString (dateToMs f)
+      | none => "err"
+    | _, _, _ => "bad-op"
+  | ["T", pat, t] =>
+    match parseCps pat, parseNat t with
+    | some pat, some t => toString (truncTo pat t)
+    | _, _ => "bad-op"
+  | _ => "bad-op"
+
+def main : IO Unit := statelessLoop answer
